@@ -218,6 +218,25 @@ fn c11_cases(thorough: bool, incroot: &str) -> Vec<C11Case> {
             out.push(C11Case { text: prog, search: vec![d1.clone(), d2.clone()], sigil: s.is_some(), args_text: "(5)".to_string(), tag: tag.to_string() });
         }
     }
+    // where and how the dialect sigil is written: every entry point has its own way of finding it
+    for (k, text) in [
+        "(mod (A) (defun f (X) (+ X 1)) (include *standard-cl-21*) (f A))",
+        "(mod (A) ; (include *standard-cl-21*)\n (defun f (X) (+ X 1)) (f A))",
+        "(mod (A) (include *standard-cl-21*) (include *standard-cl-23*) (defun f (X) (+ X 1)) (f A))",
+        "(mod (A) (include *standard-cl-23*) (include *standard-cl-21*) (defun f (X) (+ X 1)) (f A))",
+        "(mod (A) (include \"*standard-cl-21*\") (defun f (X) (+ X 1)) (f A))",
+        "(mod (A)\n\n  (include   *standard-cl-23*  )\n (defun f (X) (+ X 1)) (f A))",
+        "(mod (A) (defun f (X) (let ((Y (include *standard-cl-21*))) X)) (f A))",
+        "(mod (A) (include *standard-cl-24*) (defconstant S \"(include *standard-cl-21*)\") (c S A))",
+        "(mod (A) (include *strict-cl-21*) (include *standard-cl-21*) (defun f (X) (+ X 1)) (f A))",
+        "; (include *standard-cl-23*)\n(mod (A) (defun f (X) (+ X 1)) (f A))",
+    ]
+    .iter()
+    .enumerate()
+    {
+        // these are compared for agreement of the compile entry points only (no debugger clause): sigil=false
+        out.push(C11Case { text: text.to_string(), search: vec![], sigil: false, args_text: "(5)".to_string(), tag: format!("sigil-placement/{}", k) });
+    }
     for (path, text) in crate::crashmc::shipped_seeds(if thorough { 8000 } else { 1200 }, if thorough { 150 } else { 16 }) {
         let dir = std::path::Path::new(&path).parent().map(|p| p.to_string_lossy().to_string()).unwrap_or_default();
         let sigil = detect_dialect(&text).map(|d| d.stepping.is_some()).unwrap_or(false);
